@@ -396,3 +396,106 @@ class Rebalance(Contract):
 
     def witness(self, c):
         return {}
+
+
+# --------------------------------------------------------------------------- track record: concrete contracts (verified)
+from pyvc.models import sym_seq, forall_index
+from pyvc.contract import PWI
+
+
+class TimeMap:
+    """TrackRecord._rebalancing: a dict keyed by datetime. Stores are kept as (time term, value); a lookup that hits no store
+    falls back to the pre-state's designated last record (key = last stored time of the pre-state) or an arbitrary record."""
+
+    def __init__(self, base_key=None, base_val=None):
+        self.base_key, self.base_val, self.stores = base_key, base_val, []
+
+    def py_setitem(self, I, k, v):
+        self.stores.append((lift_fl(k).v, v))
+        I.trace.append(("rebalancing_store", lift_fl(k).v, v))
+
+    def py_getitem(self, I, k):
+        kv = lift_fl(k).v
+        for t, v in reversed(self.stores):
+            if I.branch(kv == t):
+                return v
+        if self.base_key is not None and I.branch(kv == self.base_key):
+            return self.base_val
+        return Arb("earlier record")
+
+
+def mk_concrete_track_record(I, with_last=True):
+    n = I.int("tr?len")
+    tf = I.func("tr_time", IntS, RealS)
+    I.assume(n >= (1 if with_last else 0))
+    times = sym_seq(I, lambda i: Tm(tf(i)), n, "list")
+    last = I.new_rec("Rebalancing", time=Tm(tf(n - 1))) if with_last else None
+    if not with_last:
+        I.assume(n == 0)
+    tr = I.new_rec("TrackRecord", _time=times, _rebalancing=TimeMap(tf(n - 1) if with_last else None, last),
+                   _trading_started=I.bool("trading_started"), _nr_steps_to_burn=In(I.int("burn")))
+    return tr, tf, n, last
+
+
+def in_times(I, tf, n, t, tag):
+    """t occurs in the recorded times (definitional)"""
+    return z3.Not(forall_index(I, "not_in_times#%s" % tag, z3.IntVal(0), n, lambda i: tf(i) != t))
+
+
+class CheckpointConcrete(Contract):
+    """C07: exactly one entry per executed decision: _checkpoint appends the rebalancing's time and stores the record under it;
+    a duplicated timestamp is rejected and nothing changes"""
+    relpath, qual = "tradingenv/broker/track_record.py", "TrackRecord._checkpoint"
+    props = ("C07",)
+
+    def pre_state(self, I):
+        tr, tf, n, last = mk_concrete_track_record(I, with_last=I.choice(2) == 0)
+        from pyvc.loops import keyed_list
+        rb = I.new_rec("Rebalancing", time=I.tm("rb_time"), trades=keyed_list(I, "Trade", ["contract", "quantity"], "rb_trades"))
+        return {"self": tr, "rebalancing": rb, "_tf": tf, "_n": n}
+
+    def dup(self, c):
+        t = lift_fl(c.old[c.rebalancing.oid]["time"]).v
+        return in_times(c.I, c.args["_tf"], c.args["_n"], t, "pre")
+
+    def raises(self, c):
+        return {"ValueError": {"when": self.dup(c), "post": []}}
+
+    def modifies(self, c):
+        return [("obj", c.self), ("obj", c.old[c.self.oid]["_time"])]
+
+    def ensures(self, c):
+        I = c.I
+        tf, n = c.args["_tf"], c.args["_n"]
+        t = lift_fl(c.old[c.rebalancing.oid]["time"]).v
+        h = c.heap()
+        times = h[h[c.self.oid]["_time"].oid]
+        stores = [x for x in I.trace if x[0] == "rebalancing_store"]
+        return [Cl("appends_one", z3.And(times["len"] == n + 1, lift_fl(times["at"](n)).v == t)),
+                PWI("earlier_entries_kept", lambda i: z3.Implies(z3.And(0 <= i, i < n), lift_fl(times["at"](i)).v == tf(i))),
+                Cl("record_stored_under_its_time", z3.BoolVal(len(stores) == 1 and stores[0][2] is c.rebalancing) if True else TRUE),
+                Cl("stored_key", stores[0][1] == t if stores else FALSE)]
+
+
+class GetItemConcrete(Contract):
+    """track_record[-1] is the record stored under the most recent time; IndexError when there is none"""
+    relpath, qual = "tradingenv/broker/track_record.py", "TrackRecord.__getitem__"
+    props = ("C07",)
+
+    def pre_state(self, I):
+        with_last = I.choice(2) == 0
+        tr, tf, n, last = mk_concrete_track_record(I, with_last=with_last)
+        return {"self": tr, "item": In(-1), "_last": last, "_n": n}
+
+    def raises(self, c):
+        return {"IndexError": {"when": c.args["_n"] == 0}}
+
+    def ensures(self, c):
+        last = c.args["_last"]
+        return [Cl("most_recent_record", z3.BoolVal(last is not None and c.result is last))]
+
+
+Checkpoint.concrete = CheckpointConcrete()
+Checkpoint.assumed = False
+Checkpoint.abstraction = ("call sites use the image of the verified concrete contract under the abstraction _n = len(_time), "
+                          "_has_time(t) = (t in _time), _last_record = _rebalancing[_time[-1]] (correspondence argued, A10)")
